@@ -28,6 +28,7 @@ type PropCfg struct {
 	BV       []string `json:"bv"`       // bit-vector mode checks
 	Assumed  []string `json:"assumed"`  // contracts/facts the property chain assumes (named residue)
 	Unverified []string `json:"unverified"`
+	Sweep      bool     `json:"sweep"` // list every function reachable from Layout that is not in the claimed set as unverified
 	Paper    []string `json:"paper"`    // paper lemmas / meta-arguments
 	Bounded  []string `json:"bounded"`
 	Notes    string   `json:"notes"`
@@ -441,6 +442,17 @@ func cmdCheck(args []string) int {
 	}
 	for _, a := range pc.Unverified {
 		assumptions = append(assumptions, "unverified (no contract): "+a)
+	}
+	if pc.Sweep {
+		reach := eff.Reachable(pr.Funcs["autog.Layout"])
+		var rest []string
+		for fi := range reach {
+			if !seenFn[fi.Key] {
+				rest = append(rest, fi.Key)
+			}
+		}
+		sort.Strings(rest)
+		assumptions = append(assumptions, fmt.Sprintf("unverified: %d of %d functions reachable from Layout are not in the claimed set (open safety obligations, or outside the translated subset): %s", len(rest), len(reach), strings.Join(rest, ", ")))
 	}
 	for _, a := range pc.Paper {
 		assumptions = append(assumptions, "paper lemma / meta-argument: "+a)
